@@ -21,7 +21,7 @@ func init() {
 	props["C24"] = runC24
 }
 
-var formNames = []string{"source", "ast", "parse-result", "proto"}
+var formNames = []string{"source", "ast", "parse-result", "proto", "compiled-proto"}
 
 // C09: every way of supplying a file (source, AST, parse result, unlinked proto) gives the same
 // descriptors, and supplied objects are not modified.
@@ -30,7 +30,7 @@ func runC09(h *hx.H) {
 	if h.Thorough() {
 		maxDev, fullUpTo = 3, 2
 	}
-	h.Rule = fmt.Sprintf("inputs: every compiler-accepted workspace within %d deviation(s) of the three bases x input-form assignments x source-info mode {none, standard}; up to %d deviation(s) every assignment of {source, AST, parse result, unlinked proto} to all files (4^n), beyond that the three non-source forms for main.proto with the other files as source; oracle: descriptors equal those of the all-source compile (source info compared for files not supplied as bare protos), the digest of every supplied proto / parse-result proto is unchanged after the compile, and a second compile that reuses the same supplied objects gives the same result; non-trivial = assignment with >=1 non-source form", maxDev, fullUpTo)
+	h.Rule = fmt.Sprintf("inputs: every compiler-accepted workspace within %d deviation(s) of the three bases x input-form assignments x source-info mode {none, standard}, plus main.proto supplied as the descriptor proto of the all-source compile (with its source code info); up to %d deviation(s) every assignment of {source, AST, parse result, unlinked proto} to all files (4^n), beyond that the three non-source forms for main.proto with the other files as source; oracle: descriptors equal those of the all-source compile (source info compared for files not supplied as bare protos), the digest of every supplied proto / parse-result proto is unchanged after the compile, SourceLocations() of every result has as many entries as its proto's source_code_info, and a second compile that reuses the same supplied objects gives the same result; non-trivial = assignment with >=1 non-source form", maxDev, fullUpTo)
 	forEachWS(h, maxDev, func(idx int64, ws *model.WS, ndev int) {
 		h.Eval(1)
 		h.State(1)
@@ -61,7 +61,13 @@ func runC09(h *hx.H) {
 				total *= 4
 			}
 			mainIdx := indexOfName(names, "main.proto")
-			for code := 1; code < total; code++ {
+			refProto := map[string]*descriptorpb.FileDescriptorProto{}
+			for _, f := range ref.files {
+				refProto[f.Path()] = fdProto(f)
+			}
+			// code == total: main.proto supplied as the descriptor proto that the all-source compile
+			// produced (options interpreted, source code info included in the modes that make it)
+			for code := 1; code <= total; code++ {
 				forms := make([]int, n)
 				c := code
 				onlyMain := true
@@ -71,6 +77,13 @@ func runC09(h *hx.H) {
 					if forms[i] != 0 && i != mainIdx {
 						onlyMain = false
 					}
+				}
+				if code == total {
+					for i := range forms {
+						forms[i] = 0
+					}
+					forms[mainIdx] = 4
+					onlyMain = true
 				}
 				if ndev > fullUpTo && !onlyMain {
 					continue
@@ -85,6 +98,11 @@ func runC09(h *hx.H) {
 					switch forms[i] {
 					case 0:
 						// a fresh reader is made per compile below
+					case 4:
+						p := proto.Clone(refProto[name]).(*descriptorpb.FileDescriptorProto)
+						supplied[name] = protocompile.SearchResult{Proto: p}
+						watch[name] = p
+						digests[name] = detBytes(p)
 					case 1, 2, 3:
 						rep := reporter.NewHandler(nil)
 						a, err := parser.Parse(name, strings.NewReader(src[name]), rep)
@@ -135,6 +153,11 @@ func runC09(h *hx.H) {
 						return
 					}
 					for _, f := range files {
+						// the descriptor view and the descriptor proto agree on the source locations
+						if got, want := f.SourceLocations().Len(), len(fdProto(f).GetSourceCodeInfo().GetLocation()); got != want {
+							fail("source-locations-view-differs:"+formNames[forms[indexOfName(names, f.Path())]], "forms [%s] mode %d round %d: %s: SourceLocations() has %d entries, the descriptor proto's source_code_info %d", formDesc, mi, round, f.Path(), got, want)
+							return
+						}
 						p := proto.Clone(fdProto(f)).(*descriptorpb.FileDescriptorProto)
 						withInfo := detBytes(p)
 						p.SourceCodeInfo = nil
